@@ -105,6 +105,13 @@ def build_cells(tier, backend):
         cells.append((f"lit:int:{v}", f"({v})", "obj", ("integral", None)))
         cells.append((f"lit:cmp:{v}", f"(j.nTrk() < {v})", "obj", ("bool", None)))
         cells.append((f"lit:if:{v}", f"({v} if j.pt() > 1 else 1)", "obj", ("any", None)))
+    # arithmetic with a 64-bit integer literal: '/' is real division there too, the others stay exact integers
+    for big in (4294967296, 3000000000):
+        cells.append((f"lit:div-by:{big}", f"(j.nTrk() / {big})", "obj", ("floating", 2)))
+        cells.append((f"lit:div-of:{big}", f"({big - 1} / (j.nTrk() + 2))", "obj", ("floating", 2)))
+        cells.append((f"lit:mul-div:{big}", f"((j.nTrk() * {big}) / 7)", "obj", ("floating", 2)))
+        cells.append((f"lit:mul:{big}", f"(j.nTrk() * {big})", "obj", ("integral", None)))
+        cells.append((f"lit:add:{big}", f"(j.nTrk() + {big})", "obj", ("integral", None)))
     for ek in KINDS:
         elem = KINDS[ek][0]
         seq = f"e.{coll}('A').Select(lambda j: {elem})"
